@@ -99,8 +99,11 @@ class ModbusClientProtocol(protocol.Protocol,
         :param data: The data returned from the server
         """
         unit = self.framer.decode_data(data).get("unit", 0)
+        # replies are matched by the transaction manager, not by unit: the
+        # unit read from this chunk says nothing about a reply that started
+        # in an earlier chunk or follows in the same one
         self.framer.processIncomingPacket(data, self._handleResponse,
-                                          unit=unit)
+                                          unit=unit, single=True)
 
     def execute(self, request):
         """ 
